@@ -497,6 +497,7 @@ type c08Scenario struct {
 type c08Variant struct {
 	Kind   string   `json:"kind"` // baseline, flag-disabled, cfg-disabled, rule-disable, flag-enabled, cfg-enabled, offline
 	Name   string   `json:"name"`
+	Other  string   `json:"other_name,omitempty"`
 	Global []string `json:"global_args"`
 	Extra  string   `json:"config_suffix"`
 }
@@ -583,6 +584,22 @@ func c08Binary(r *rand.Rand, rep *runReport, cwd string, n int) {
 				c08Variant{Kind: "rule-disable-over-enable", Name: nme, Extra: fmt.Sprintf("rule {\n  enable = [%q]\n}\nrule {\n  disable = [%q]\n}\n", nme, nme)},
 			)
 		}
+		// command line x configuration file: every CLI switch crossed with every counterpart of the file, documented precedence:
+		// --enabled REPLACES checks{enabled}; --disabled ADDS to checks{disabled}; a disabled name wins over an enabled one
+		for k, nme := range names {
+			other := names[(k+1)%len(names)]
+			if other == nme {
+				continue
+			}
+			vs = append(vs,
+				c08Variant{Kind: "cli-enabled-over-cfg-enabled-outside", Name: nme, Other: other, Global: []string{"--enabled", nme}, Extra: fmt.Sprintf("checks {\n  enabled = [%q]\n}\n", other)},
+				c08Variant{Kind: "cli-enabled-over-cfg-enabled-inside", Name: nme, Other: other, Global: []string{"--enabled", nme}, Extra: fmt.Sprintf("checks {\n  enabled = [%q, %q]\n}\n", other, nme)},
+				c08Variant{Kind: "cli-disabled-with-cfg-enabled", Name: nme, Other: other, Global: []string{"--disabled", nme}, Extra: fmt.Sprintf("checks {\n  enabled = [%q, %q]\n}\n", nme, other)},
+				c08Variant{Kind: "cli-enabled-with-cfg-disabled-same", Name: nme, Other: other, Global: []string{"--enabled", nme}, Extra: fmt.Sprintf("checks {\n  disabled = [%q]\n}\n", nme)},
+				c08Variant{Kind: "cli-enabled-with-cfg-disabled-other", Name: nme, Other: other, Global: []string{"--enabled", nme}, Extra: fmt.Sprintf("checks {\n  disabled = [%q]\n}\n", other)},
+				c08Variant{Kind: "cli-disabled-plus-cfg-disabled", Name: nme, Other: other, Global: []string{"--disabled", nme}, Extra: fmt.Sprintf("checks {\n  disabled = [%q]\n}\n", other)},
+			)
+		}
 		vs = append(vs, c08Variant{Kind: "flag-disabled-tag-form", Name: "promql/rate(+nosuchtag)", Global: []string{"--disabled", "promql/rate(+nosuchtag)"}})
 		for _, v := range vs {
 			jobs = append(jobs, job{scen: si, v: v})
@@ -650,8 +667,14 @@ func c08Binary(r *rand.Rand, rep *runReport, cwd string, n int) {
 				keep = p.Reporter != j.v.Name
 			case "rule-enable-over-disabled", "flag-disabled-tag-form":
 				keep = true
-			case "flag-enabled", "cfg-enabled":
+			case "flag-enabled", "cfg-enabled", "cli-enabled-over-cfg-enabled-outside", "cli-enabled-over-cfg-enabled-inside", "cli-enabled-with-cfg-disabled-other":
 				keep = p.Reporter == j.v.Name || isParseError(p)
+			case "cli-disabled-with-cfg-enabled":
+				keep = p.Reporter == j.v.Other || isParseError(p)
+			case "cli-enabled-with-cfg-disabled-same":
+				keep = isParseError(p)
+			case "cli-disabled-plus-cfg-disabled":
+				keep = p.Reporter != j.v.Name && p.Reporter != j.v.Other
 			case "offline":
 				keep = !online[p.Reporter]
 			}
